@@ -7,7 +7,8 @@
 (*   e.ten  = [op |-> "matching", shape, idx, vals]  (exact tier; e.data = the entries fed to the     *)
 (*            code) or [op |-> "measured", shape, fam] with e.tails = measured tails of the           *)
 (*            unfoldings relative to ||X||^2 (scale 10^8)                                              *)
-(*   e.out  = [raised, ranks, err2_q, fin]   err2_q on the scale of the tails                         *)
+(*   e.out  = [raised, ranks, err2_q, rel_q, fin]   err2_q on the scale of the tails, rel_q = relative   *)
+(*            error * 10^12 (capped at 2 * 10^9)                                                        *)
 (* Clauses in order: InDomain, Outcome, Ranks, Finite, ExactAtSufficientRank, LowerBound, UpperBound. *)
 EXTENDS SVDDecomp, Json, IOUtils
 
@@ -30,7 +31,7 @@ MeasuredOK(e) ==
 InDomain(e) ==
     /\ ValidCfg(e.cfg)
     /\ e.dtype \in Dtypes
-    /\ e.pow2 \in Pow2s /\ (e.pow2 # 0 => e.dtype = "float64")
+    /\ e.pow2 \in Pow2s /\ (e.pow2 # 0 => e.dtype = "float64") /\ Pow2OK(e.svd, e.pow2)
     /\ (IOEnv.C09_KNOWN_BAD = "include" \/ ~KnownBadCombination(e.svd, e.dtype, e.pow2))   \* ./check C09 --opt known_bad=include
     /\ (e.dtype \in {"int64", "int32"} => e.ten.op = "matching" \/ e.ten.fam \in IntegerFams)
     /\ ValidRankSpec(e.cfg, e.rspec, e.frac) /\ e.via \in Vias
@@ -52,6 +53,10 @@ Judge(e, c) ==
              ub == UpperBound(c, tails)
              sl == SlackFor(NUnf(c), e.dtype)
          IN  IF ub = 0 /\ e.out.err2_q > Slack(NUnf(c)) THEN "ExactAtSufficientRank"
+             \* to rounding error of the input's precision class, where the tails are known to be empty exactly
+             \* (integer spectra of a matching tensor / ranks covering the full unfoldings), not just below the quantum
+             ELSE IF ub = 0 /\ (e.ten.op = "matching" \/ StructurallyFull(c)) /\ e.out.rel_q > ExactRelTol(e.dtype)
+                  THEN "ExactAtSufficientRank"
              ELSE IF e.out.err2_q < lb - sl THEN "LowerBound"
              ELSE IF e.out.err2_q > ub + sl THEN "UpperBound"
              ELSE "ok"
